@@ -438,9 +438,10 @@ fn c08_ops(g: &mut Gen, thorough: bool) {
         }
     }
     // rough datum shift grids (corrections changing by tens of arc seconds from node to node)
-    for _ in 0..(if thorough { 60 } else { 8 }) {
+    for k in 0..(if thorough { 60 } else { 8 }) {
         let (rows, cols) = (5usize, 9usize);
-        let (lat_s, lon_w) = (g.rng.range(-40, 50) as f64, g.rng.range(-100, 100) as f64);
+        // (one in four lies across the antimeridian, its longitudes counted on beyond 180, or below -180)
+        let (lat_s, lon_w) = (g.rng.range(-40, 50) as f64, match k % 8 { 0 => 175.0, 1 => -187.0, _ => g.rng.range(-100, 100) as f64 });
         let values: Vec<f32> = (0..rows * cols * 2).map(|_| g.rng.range(-6000, 6000) as f32 / 100.0).collect();
         let gr = GGrid { lat_n: lat_s + (rows - 1) as f64, lat_s, lon_w, lon_e: lon_w + (cols - 1) as f64, dlat: 1.0, dlon: 1.0, rows, cols, bands: 2, values, projected: false, fancy: false };
         let text = gr.gravsoft(&mut g.rng, false);
